@@ -355,7 +355,13 @@ VARIANTS += [
     ("C17-no-overflow-handler", "C17", PARSER, "    try:\n        return _parse(text, **options)\n    except OverflowError as e:\n        # Numbers too large for a date, time or duration\n        raise ParserError(f\"Unable to parse string [{text}]: {e}\") from e", "    return _parse(text, **options)", "UNBOUNDED-INT"),
     ("C17-handler-wrong-exc", "C17", PARSER, "        raise ParserError(f\"Unable to parse string [{text}]: {e}\") from e", "        raise RuntimeError(f\"Unable to parse string [{text}]: {e}\") from e", "UNBOUNDED-INT.convert"),
     ("C17-interval-novalidate", "C17", PARSING, "    for bound in (start, end):\n        # A duration can only be applied to a date and time,\n        # an interval without duration may also join two dates.\n        if bound is not None and not isinstance(\n            bound, date if duration is None else datetime\n        ):\n            raise ParserError(\"Invalid interval\")\n", "", "CAST-UNION"),
-    ("C17-interval-duration-novalidate", "C17", PARSING, "    if duration is not None and not isinstance(duration, Duration):\n        raise ParserError(\"Invalid interval\")\n", "", "CAST-UNION"),
+    # a `P...` half is a Duration or an error in both parsers (iso8601.parse_iso8601 tries the duration pattern first and ISO8601_DT cannot
+    # start with P; Parser::parse branches on 'P'): the defensive isinstance(duration, Duration) test is unreachable - behaviour-preserving
+    # (found when CAST-UNION went from shape to tabulation)
+    ("C17-interval-duration-novalidate-benign", "C17", PARSING, "    if duration is not None and not isinstance(duration, Duration):\n        raise ParserError(\"Invalid interval\")\n", "", None),
+    ("C17-interval-date-with-duration", "C17", PARSING, "            bound, date if duration is None else datetime\n", "            bound, date\n", "CAST-UNION"),
+    ("C17-interval-refuses-dates-quiet", "C17", PARSING, "            bound, date if duration is None else datetime\n", "            bound, datetime\n", None),   # a ParserError is within C17; C13 reports it
+    ("C13-interval-refuses-dates", "C13", PARSING, "            bound, date if duration is None else datetime\n", "            bound, datetime\n", "INTERVAL.accepts"),
     ("C17-interval-validate-one", "C17", PARSING, "    for bound in (start, end):", "    for bound in (start,):", "CAST-UNION"),
     ("C17-ladder-arm-removed", "C17", PARSER, "    if isinstance(parsed, Duration):\n        return parsed\n", "", "LADDER.exhaustive"),
     ("C17-strict-ignored", "C17", PARSING, '    if options.get("strict", True):\n        raise ParserError(f"Unable to parse string [{text}]")', '    if options.get("strict", True) and False:\n        raise ParserError(f"Unable to parse string [{text}]")', "STRICT.gate"),
